@@ -9,6 +9,7 @@ from __future__ import annotations
 
 import ast
 import math
+from dataclasses import replace
 from fractions import Fraction
 from typing import Any, Optional
 
@@ -225,6 +226,10 @@ class NumOps:
                 pass
         self.I.on_arith(node, opname, a, b, prov)
         res = Num(kinds=kinds, rng=rng, deg=deg, prov=prov, sym=sym, const=const)
+        if self.I.shift_mode:
+            from . import shift
+
+            res = replace(res, wt=shift.binop(self.I, opname, a, b, node))
         h = self.I.hooks.get("arith-result")
         if h is not None:
             r = h(self.I, node, opname, a, b, res)
@@ -239,6 +244,11 @@ class NumOps:
         if a.const is not None:
             const = -a.const
         kinds = a.kinds if a.kinds != BOOL else INT
+        wt = None
+        if self.I.shift_mode:
+            from . import shift
+
+            wt = shift.neg(self.I, a, node)
         return Num(
             kinds=kinds,
             rng=a.rng.neg() if a.rng is not None else None,
@@ -246,10 +256,16 @@ class NumOps:
             prov=a.prov,
             sym=sym_const(const) if const is not None else mk_sym("neg", a.sym),
             const=const,
+            wt=wt,
         )
 
     def abs(self, a: Num, node) -> Num:
         const = abs(a.const) if a.const is not None else None
+        wt = None
+        if self.I.shift_mode:
+            from . import shift
+
+            wt = shift.abs_(self.I, a, node)
         return Num(
             kinds=a.kinds if a.kinds != BOOL else INT,
             rng=a.rng.abs() if a.rng is not None else None,
@@ -257,11 +273,16 @@ class NumOps:
             prov=a.prov,
             sym=sym_const(const) if const is not None else mk_sym("abs", a.sym),
             const=const,
+            wt=wt,
         )
 
     # ---------------------------------------------------------------- comparison
     def compare(self, op, a: Num, b: Num, node, state) -> Bool:
         self._deg_same(a, b, node, "comparison")
+        if self.I.shift_mode:
+            from . import shift
+
+            shift.compare(self.I, a, b, node)
         prov = a.prov | b.prov
         if self.I.ordinal_tags:
             # a comparison between two values of an ordinal-only source reveals only their order
